@@ -1,6 +1,9 @@
 #!/bin/bash
-# offline build of the verification engine from files on disk only
+# offline build of the verification engines and of the repository's binaries, from files on disk only
 set -e
-cd /verif/engine
 export CARGO_NET_OFFLINE=true
-cargo build --release --offline -p svgmc 2>&1 | tail -n 3
+cd /verif/engine
+cargo build --release --offline -p svgmc 2>&1 | tail -n 2
+cargo build --release --offline -p svgmc7 2>&1 | tail -n 2
+cd /repo
+CARGO_PROFILE_RELEASE_LTO=false CARGO_PROFILE_RELEASE_CODEGEN_UNITS=16 cargo build --release --offline -p svgbob_cli -p svgbob_server --target-dir /verif/target/repo 2>&1 | tail -n 2
